@@ -997,26 +997,23 @@ def _has_uf(t):
     return False
 
 
-def _with_margin(c, eps):
-    """strengthen the inequalities of a path-condition conjunct by a margin (validation points away from branch edges)"""
+def _with_margin(c, eps, pos=True):
+    """a formula implying `c` (or `not c` for pos=False) in which every inequality holds with a margin
+    (validation points away from branch edges); negations are pushed inwards"""
     k = c.decl().kind() if z3.is_app(c) else None
-    if k == z3.Z3_OP_AND:
-        return z3.And(*[_with_margin(x, eps) for x in c.children()])
-    if k == z3.Z3_OP_OR:
-        return z3.Or(*[_with_margin(x, eps) for x in c.children()])
-    neg = False
-    a = c
     if k == z3.Z3_OP_NOT:
-        a = c.arg(0)
-        neg = True
-        k = a.decl().kind() if z3.is_app(a) else None
-    if k in (z3.Z3_OP_LE, z3.Z3_OP_LT, z3.Z3_OP_GE, z3.Z3_OP_GT) and a.num_args() == 2 and z3.is_real(a.arg(0)):
-        x, y = a.arg(0), a.arg(1)
+        return _with_margin(c.arg(0), eps, not pos)
+    if k in (z3.Z3_OP_AND, z3.Z3_OP_OR):
+        parts = [_with_margin(x, eps, pos) for x in c.children()]
+        conj = (k == z3.Z3_OP_AND) == pos
+        return z3.And(*parts) if conj else z3.Or(*parts)
+    if k in (z3.Z3_OP_LE, z3.Z3_OP_LT, z3.Z3_OP_GE, z3.Z3_OP_GT) and c.num_args() == 2 and z3.is_real(c.arg(0)):
+        x, y = c.arg(0), c.arg(1)
         less = k in (z3.Z3_OP_LE, z3.Z3_OP_LT)  # x <(=) y
-        if neg:
+        if not pos:
             less = not less
         return (y - x >= eps) if less else (x - y >= eps)
-    return c
+    return c if pos else z3.Not(c)
 
 
 def _robust_model(p: PathCtx, eps=1e-4, timeout_ms=4000):
